@@ -368,3 +368,79 @@ func VerifC08_LargeWindowClear() {
 	_ = used
 	zz.Reach("C08.largewindow.end")
 }
+
+// VerifC08_UnstakeAndRestake: a validator with some (sub-threshold) misses in its window unstakes, matures and is
+// removed, then stakes again with the same key and goes on voting: after every vote its missed-blocks counter still
+// equals the number of missed entries in its window.
+func VerifC08_UnstakeAndRestake() {
+	e := VNewEnv(2)
+	const w = 4
+	vSetWindowParams(e, w, sdk.NewDecWithPrec(25, 2)) // up to 3 misses per window tolerated
+	e.Fund(e.Addrs[0], sdk.NewInt(50000000))
+	e.Fund(e.Addrs[1], sdk.NewInt(50000000))
+	e.Stake(1, sdk.NewInt(20000000))
+	e.Stake(0, sdk.NewInt(10000000))
+	check := func(tag string) {
+		info, ok := e.K.GetValidatorSigningInfo(e.Ctx, e.Addrs[0])
+		if !ok {
+			return
+		}
+		n, _ := vCountMissed(e, e.Addrs[0], w)
+		zz.Assert("C08.restake."+tag+".counter-equals-window", info.MissedBlocksCounter == n)
+	}
+	for b := 0; b < 2; b++ {
+		e.Advance(time.Second, 1)
+		e.K.handleValidatorSignature(e.Ctx, []byte(e.Addrs[0]), 10, zz.Bool("signed_before"))
+		check("before")
+	}
+	v, _ := e.Val(0)
+	if err := e.K.BeginUnstakingValidator(e.Ctx, v); err != nil {
+		panic(err)
+	}
+	e.Advance(e.K.UnStakingTime(e.Ctx), 1)
+	EndBlocker(e.Ctx, e.K)
+	_, still := e.Val(0)
+	zz.Assert("C08.restake.matured-and-removed", !still)
+	e.Stake(0, sdk.NewInt(10000000))
+	check("after-restake")
+	for b := 0; b < 3; b++ {
+		e.Advance(time.Second, 1)
+		e.K.handleValidatorSignature(e.Ctx, []byte(e.Addrs[0]), 10, zz.Bool("signed_after"))
+		check("after")
+	}
+	zz.Reach("C08.restake.end")
+}
+
+// VerifC07_BurnAgainstUnstaked: a custom burn queued against a validator that is unstaked (record present) burns
+// nothing - not at the next BeginBlock and not later, after the validator has staked again.
+func VerifC07_BurnAgainstUnstaked() {
+	e := VNewEnv(2)
+	e.Fund(e.Addrs[1], sdk.NewInt(50000000))
+	e.Stake(1, sdk.NewInt(20000000))
+	e.Fund(e.Addrs[0], sdk.NewInt(50000000))
+	e.Stake(0, sdk.NewInt(10000000))
+	e.K.SetPreviousProposer(e.Ctx, e.Addrs[1])
+	v, _ := e.Val(0)
+	if err := e.K.ForceValidatorUnstake(e.Ctx, v); err != nil {
+		panic(err)
+	}
+	e.K.BurnValidator(e.Ctx, e.Addrs[0], sdk.NewDecWithPrec(5, 1))
+	pre := e.snap()
+	req := abci.RequestBeginBlock{Header: abci.Header{ProposerAddress: e.Addrs[1]}}
+	e.Advance(time.Second, 1)
+	BeginBlocker(e.Ctx, req, e.K)
+	mid := e.snap()
+	zz.Assert("C07.burn-unstaked.burns-nothing", mid.supply.Equal(pre.supply) && mid.pool.Equal(pre.pool))
+	// the validator stakes again; no slash is due
+	amt := VSymInt("restake", 1000000, 20000000)
+	vv, _ := e.Val(0)
+	if e.K.ValidateValidatorStaking(e.Ctx, vv, amt) == nil {
+		e.K.StakeValidator(e.Ctx, vv, amt)
+		staked := e.snap()
+		e.Advance(time.Second, 1)
+		BeginBlocker(e.Ctx, req, e.K)
+		post := e.snap()
+		zz.Assert("C07.burn-unstaked.nothing-burned-after-restake", post.supply.Equal(staked.supply) && post.pool.Equal(staked.pool) && post.stake[0].Equal(staked.stake[0]))
+	}
+	zz.Reach("C07.burn-unstaked.end")
+}
